@@ -1109,6 +1109,18 @@ class ReplacingNodeVisitor(BaseNodeVisitor):
             return None
         lines = self._lines()
         lines_to_remove = analysis_lib.get_line_range_for_node(current_statement, lines)
+        for parent in ast.walk(self.tree):
+            for field in ("body", "orelse", "finalbody"):
+                block = getattr(parent, field, None)
+                if (
+                    isinstance(block, list)
+                    and len(block) == 1
+                    and block[0] is current_statement
+                ):
+                    # A block cannot be empty: leave a "pass" in place of its only statement.
+                    first_line = lines[current_statement.lineno - 1]
+                    indent = first_line[: analysis_lib.get_indentation(first_line)]
+                    return Replacement(lines_to_remove, [f"{indent}pass\n"])
         return Replacement(lines_to_remove, [])
 
     def visit(self, node: ast.AST) -> Any:
